@@ -10,7 +10,12 @@ pub const AMQP_HEADER: [u8; 8] = [b'A', b'M', b'Q', b'P', 0, 1, 0, 0];
 pub const SASL_HEADER: [u8; 8] = [b'A', b'M', b'Q', b'P', 3, 1, 0, 0];
 
 pub fn paused_rt() -> tokio::runtime::Runtime {
-    tokio::runtime::Builder::new_current_thread().enable_all().start_paused(true).build().unwrap()
+    let mut b = tokio::runtime::Builder::new_current_thread();
+    b.enable_all().start_paused(true);
+    // fixes the order in which tokio::select! tries its branches: traces are the same on every run
+    #[cfg(tokio_unstable)]
+    b.rng_seed(tokio::runtime::RngSeed::from_bytes(b"fe2o3 verif"));
+    b.build().unwrap()
 }
 
 /// deterministic quiescence barrier
